@@ -9197,7 +9197,15 @@ class SVG(Group):
                 if SVG_NAME_TAG == tag:
                     # The ordering for transformations on the SVG object are:
                     # explicit transform, parent transforms, attribute transforms, viewport transforms
-                    s = SVG(values)
+                    try:
+                        s = SVG(values)
+                    except ValueError:
+                        # An attribute value of this svg element is in error.
+                        if context is not None:
+                            values[SVG_ATTR_DISPLAY] = SVG_VALUE_NONE
+                            continue  # A nested svg in error is not rendered.
+                        values.pop(SVG_ATTR_TRANSFORM, None)
+                        s = SVG(values)  # The outermost svg is kept, without the transform in error.
 
                     if width is None:
                         # If a dim was not provided but a viewbox was, use the viewbox dim as physical size, else 1000
@@ -9237,13 +9245,21 @@ class SVG(Group):
                         context.append(s)
                     context = s
                 elif SVG_TAG_GROUP == tag:
-                    s = Group(values)
+                    try:
+                        s = Group(values)
+                    except ValueError:
+                        values[SVG_ATTR_DISPLAY] = SVG_VALUE_NONE
+                        continue  # A group in error is not rendered.
                     if context is not None:
                         context.append(s)
                     context = s
                     s.render(ppi=ppi, width=width, height=height)
                 elif SVG_TAG_DEFS == tag:
-                    s = Group(values)
+                    try:
+                        s = Group(values)
+                    except ValueError:
+                        values[SVG_ATTR_DISPLAY] = SVG_VALUE_NONE
+                        continue
                     context = s  # Non-Rendered
                     s.render(ppi=ppi, width=width, height=height)
                 elif SVG_TAG_CLIPPATH == tag:
@@ -9252,7 +9268,11 @@ class SVG(Group):
                     s.render(ppi=ppi, width=width, height=height)
                     clip += 1
                 elif SVG_TAG_USE == tag:
-                    s = Use(values)
+                    try:
+                        s = Use(values)
+                    except ValueError:
+                        values[SVG_ATTR_DISPLAY] = SVG_VALUE_NONE
+                        continue  # A use in error is not rendered.
                     if SVG_ATTR_TRANSFORM in s.values:
                         # Update value in case x or y applied.
                         values[SVG_ATTR_TRANSFORM] = s.values[SVG_ATTR_TRANSFORM]
@@ -9382,12 +9402,15 @@ class SVG(Group):
                     if SVG_ATTR_ID in attributes and root is not None and use == 0:
                         root.objects[attributes[SVG_ATTR_ID]] = s
                 if tag in (SVG_TAG_TEXT, SVG_TAG_TSPAN):
-                    s = Text(values, text=elem.text)
-                    s.render(ppi=ppi, width=width, height=height)
-                    if reify:
-                        s.reify()
-                    if context is not None:
-                        context.append(s)
+                    try:
+                        s = Text(values, text=elem.text)
+                        s.render(ppi=ppi, width=width, height=height)
+                        if reify:
+                            s.reify()
+                        if context is not None:
+                            context.append(s)
+                    except ValueError:
+                        s = None  # A text element in error is skipped.
                 elif SVG_TAG_DESC == tag:
                     s = Desc(values, desc=elem.text)
                     if context is not None:
